@@ -54,6 +54,21 @@ def check_prefixes(rep, drv, case, mode, data, with_schema, cuts):
             rep.corr_checked += 1
             if md != ('err', 'underrun'):
                 rep.disagree('DEC-prefix', base, md, r)
+        # (b') an in-memory non-blocking stream (BytesIO subclass, the idiom of the library's own tests)
+        for max_read in (None, 1, 3):
+            s = streams.NonBlockingBytesIO(pre, max_read=max_read)
+            o = stream_outcome(dec, s, schema, max_steps=4)
+            if any(x != 'U' for x in o):
+                rep.fail('prefix-open-bytesio-' + '-'.join(o[-2:]),
+                         'open non-blocking BytesIO holding a proper prefix (cut %d of %d, max_read %s) -> %s' % (k, len(data), max_read, o),
+                         dict(base, stream='nonblocking-bytesio', max_read=max_read))
+            s = streams.NonBlockingBytesIO(pre, max_read=max_read)
+            s.close_input()
+            o = stream_outcome(dec, s, schema)
+            if o != ['EOS']:
+                rep.fail('prefix-closed-bytesio-' + '-'.join(o[-2:]),
+                         'closed non-blocking BytesIO holding a proper prefix (cut %d of %d, max_read %s) -> %s' % (k, len(data), max_read, o),
+                         dict(base, stream='nonblocking-bytesio', max_read=max_read))
         # (b) seekable stream closed after byte k
         for seekable in (True, False):
             s = streams.GrowingStream(seekable=seekable)
